@@ -66,7 +66,7 @@ def check(ctx, world):
     sp = gm.shipped_params(world, ev)
     S = c18.spec()["message_lengths"]
     for label, (pobj, g) in sorted(sp.items()):
-        w = world.static.heap[g.oid].get("element_size_bytes")
+        w = gm.attr_of(ev, g, "element_size_bytes", world.static)
         ok = isinstance(w, Const) and w.v + 1 == S[label]
         ctx.ob("S-length", label, ok, "message length 1 + %s = %d bytes" % (show(w), S[label]) if ok else
                "element_size_bytes of %s is %s; released message length is %d" % (label, show(w), S[label]))
